@@ -51,9 +51,10 @@ func init() {
 var quiet = slog.New(slog.NewTextHandler(io.Discard, nil))
 
 type victim struct {
-	cfg VictimCfg
-	db  *litestream.DB
-	mu  sync.Mutex // stdout
+	cfg   VictimCfg
+	db    *litestream.DB
+	fault *faultClient
+	mu    sync.Mutex // stdout
 
 	// follow mode (one follower at a time)
 	fmu      sync.Mutex
@@ -85,10 +86,49 @@ func (v *victim) newDB() *litestream.DB {
 	db.VerifyCompaction = c.VerifyCompaction
 	fc := file.NewReplicaClient(c.RepPath())
 	fc.SetLogger(quiet)
-	db.Replica = litestream.NewReplicaWithClient(db, fc)
+	v.fault = &faultClient{ReplicaClient: fc}
+	db.Replica = litestream.NewReplicaWithClient(db, v.fault)
 	db.Replica.MonitorEnabled = false
 	fc.Replica = db.Replica
 	return db
+}
+
+// faultClient is a pass-through around the real file replica client. When armed
+// (snapshot-fail / compact-fail commands) the next WriteLTXFile hands the real
+// client a reader that returns an error after failAfter bytes: the fault is in
+// this wrapper, everything the file client does with it is the real code.
+type faultClient struct {
+	litestream.ReplicaClient
+	failAfter int64 // 0 = pass through
+	fired     bool
+}
+
+var errInjected = errors.New("harness: injected upload stream failure")
+
+type failingReader struct {
+	r    io.Reader
+	left int64
+}
+
+func (f *failingReader) Read(p []byte) (int, error) {
+	if f.left <= 0 {
+		return 0, errInjected
+	}
+	if int64(len(p)) > f.left {
+		p = p[:f.left]
+	}
+	n, err := f.r.Read(p)
+	f.left -= int64(n)
+	return n, err
+}
+
+func (c *faultClient) WriteLTXFile(ctx context.Context, level int, minTXID, maxTXID ltx.TXID, r io.Reader) (*ltx.FileInfo, error) {
+	if c.failAfter > 0 {
+		r = &failingReader{r: r, left: c.failAfter}
+		c.failAfter = 0
+		c.fired = true
+	}
+	return c.ReplicaClient.WriteLTXFile(ctx, level, minTXID, maxTXID, r)
 }
 
 // followHandler turns the follower's own progress reports into marker lines.
@@ -261,6 +301,43 @@ func (v *victim) exec(ctx context.Context, f []string) (string, error) {
 			return "", db.EnforceRetentionByTXID(ctx, lvl, ltx.TXID(n))
 		}
 		return "", fmt.Errorf("unknown retention kind %q", f[1])
+	case "snapshot-fail", "compact-fail":
+		// snapshot-fail <k> | compact-fail <level> <k>: the same operation, but the upload stream
+		// breaks after k bytes. The operation is expected to fail ("err ..." reply).
+		if len(f) < 2 {
+			return "", errors.New("byte count required")
+		}
+		k, err := strconv.ParseInt(f[len(f)-1], 10, 64)
+		if err != nil || k <= 0 {
+			return "", errors.New("bad byte count")
+		}
+		v.fault.failAfter, v.fault.fired = k, false
+		var opErr error
+		if f[0] == "snapshot-fail" {
+			_, opErr = db.Snapshot(ctx)
+		} else {
+			if len(f) < 3 {
+				return "", errors.New("level required")
+			}
+			lvl, _ := strconv.Atoi(f[1])
+			_, opErr = db.Compact(ctx, lvl)
+		}
+		fired := v.fault.fired
+		v.fault.failAfter = 0
+		if opErr == nil {
+			return fmt.Sprintf("completed-without-failure fired=%v", fired), nil
+		}
+		return "", opErr
+	case "max-sync-wal": // byte budget of one DB.sync chunk (0 = unlimited)
+		if len(f) < 2 {
+			return "", errors.New("bytes required")
+		}
+		n, err := strconv.ParseInt(f[1], 10, 64)
+		if err != nil {
+			return "", err
+		}
+		db.MaxSyncWALBytes = n
+		return f[1], nil
 	case "restore": // restore <name> [ic=none|quick|full] [txid=N]   (what `litestream restore` does)
 		if len(f) < 2 {
 			return "", errors.New("name required")
